@@ -43,7 +43,9 @@ def ksyms(dom, p, cx):
 def random_point(dom, rng, lo=-0.9, hi=0.9):
     pt = {}
     for n in dom.gens:
-        if n.startswith("r0") or n.startswith("T0") or n.startswith("e0"):
+        if n in ("sqrt2", "sqrt3"):
+            pt[n] = Fraction(round({"sqrt2": 2, "sqrt3": 3}[n] ** 0.5 * 10 ** 9), 10 ** 9)      # witness only
+        elif n.startswith("r0") or n.startswith("T0") or n.startswith("e0"):
             pt[n] = Fraction(rng.randint(5, 40), 10)
         else:
             pt[n] = Fraction(rng.randint(int(lo * 100), int(hi * 100)), 100) or Fraction(1, 7)
@@ -70,6 +72,8 @@ class E3:
     def eq(self, clause, got, want):
         """scalar or sequence equality as identities of the field"""
         tc = self.tc
+        if getattr(tc, "point_mode", False):
+            return self.eq_point(clause, got, want)
         gl = got.to_list() if isinstance(got, Arr) else (list(got) if isinstance(got, (list, tuple)) else [got])
         wl = want.to_list() if isinstance(want, Arr) else (list(want) if isinstance(want, (list, tuple)) else [want])
         if len(gl) != len(wl):
@@ -87,7 +91,31 @@ class E3:
         r.clause = clause
         return True
 
+    def eq_point(self, clause, got, want):
+        """pre-run at a rational point: only a mismatch is recorded (a concrete input on which the real code, executed exactly,
+        disagrees with the specification); agreement proves nothing and records nothing"""
+        tc = self.tc
+        tc.point_evals = getattr(tc, "point_evals", 0) + 1
+        gl = got.to_list() if isinstance(got, Arr) else (list(got) if isinstance(got, (list, tuple)) else [got])
+        wl = want.to_list() if isinstance(want, Arr) else (list(want) if isinstance(want, (list, tuple)) else [want])
+        pt = {k: str(v) for k, v in (self.dom.point or {}).items()}
+        bad = None
+        if len(gl) != len(wl):
+            bad = "length %d, expected %d" % (len(gl), len(wl))
+        else:
+            for i, (g, w) in enumerate(zip(gl, wl)):
+                if not self.dom.equal(g, w):
+                    bad = "entry %d differs from the specification at the rational point %s" % (i, pt)
+                    break
+        if bad is not None:
+            r = tc.add_result(clause, "refuted", detail=bad, model=dict(self.hints, point=pt), backend="exact evaluation at a rational point")
+            r.clause, r.replay = clause, (self.native, dict(self.hints, point=pt))
+            return False
+        return True
+
     def ok(self, clause, cond, detail=""):
+        if getattr(self.tc, "point_mode", False) and cond:
+            return True
         r = self.tc.add_result(clause, "proved" if cond else "refuted", backend="ringnf", detail=detail, model=dict(self.hints))
         r.clause = clause
         if not cond:
@@ -99,9 +127,12 @@ class E3:
         try:
             paths = interp.explore(thunk)
         except Unsupported as e:
-            self.tc.add_result("engine", "unsupported", detail=str(e))
+            if not getattr(self.tc, "point_mode", False):
+                self.tc.add_result("engine", "unsupported", detail=str(e))
             return None
         p = paths[0]
+        if p.outcome != "return" and getattr(self.tc, "point_mode", False):
+            return None      # a concrete point may leave the generic domain (e.g. a non positive-definite sample): not a verdict
         if p.outcome != "return":
             r = self.tc.add_result("no-exception", "refuted", detail="raises %s on the generic path" % p.value.exc, model=dict(self.hints))
             r.clause, r.replay = "no-exception", (self.native, self.hints)
@@ -109,10 +140,18 @@ class E3:
         return p.value
 
 
-def e3_interp(tc, names, stubs=None):
+def e3_interp(tc, names, stubs=None, lazy=False):
     from pyvc.ringdom import RingDom
     from pyvc.interp import Interp
     dom = RingDom(names)
+    dom.lazy = lazy
+    if getattr(tc, "point_mode", False):
+        # refutation pre-run: data symbols take random exact rational values; algebraic constants, pi and angle symbols stay symbolic
+        import re as _re
+        rng = random.Random(tc.seed * 7919 + 13 + 104729 * getattr(tc, "point_try", 0))
+        keep = _re.compile(r"^(sqrt2|sqrt3|pi|th|w\d+)$")
+        pt = random_point(dom, rng)
+        dom.point = {n: v for n, v in pt.items() if not keep.match(n)}
     tc.dom = dom
     V.set_domain(dom)
     return dom, Interp(tc.program, dom, tc.lib, stubs=stubs or {})
